@@ -274,7 +274,7 @@ Definition demo_cfg2 : config :=
      mkUD 400 false 80 320 0 0 0 0 TEnemies TEnemies TEnemies [1%nat]]
     [[SAttack 3 [TPrimary] true 30];
      [SAttack 4 [TId 1] true 10]]
-    [(1, [mkDec 1 101; mkDec 1 102; mkDec 0 100])] [[mkUR 1 3 100]] [] [] [] [] [] [] [] 3 4.
+    [(1, [mkDec 1 101; mkDec 1 102; mkDec 0 100])] [[mkUR 1 3 100]] [] [] [] [] [] [] [] [] 3 4.
 
 Example demo_cfg2_runs :
   match start demo_cfg2 300 with
